@@ -13,6 +13,9 @@ MCAnns ==
           [node |-> 3, kind |-> "inv", repo |-> 0, ts |-> 0, sig |-> TRUE],
           [node |-> 3, kind |-> "inv", repo |-> 0, ts |-> -4000, sig |-> TRUE]}
 
+\* inventory content of node 3's announcements: the two versions differ
+MCInvOf(a) == IF a.ts = 5 THEN {1} ELSE {1, 3}
+
 MCAllow == (1 :> {}) @@ (2 :> {1}) @@ (3 :> {})
 MCDelegates == (1 :> {0}) @@ (2 :> {0}) @@ (3 :> {3})
 
